@@ -244,7 +244,15 @@ func c17closed(env *core.Env, cs c17case, res *core.CaseResult) {
 		if i := strings.Index(m, "/"); i >= 0 {
 			m = m[:i] + "(" + m[i+1:] + ")"
 		}
-		sr := fsx.Exec(sub.fs, st, &sh, nil)
+		var sr fsx.Result
+		if hung, confirmed := withWatchdog(func() { sr = fsx.Exec(sub.fs, st, &sh, nil) }); hung {
+			if confirmed {
+				res.Violate(fmt.Sprintf("C17|%s|%s|%s|got=hang,want=error", cs.Subject, cs.Kind, m), fmt.Sprintf("[%s, %s handle] %s after Close (call %d after it) did not return; the goroutine dump shows it parked on a lock", cs.Subject, cs.Kind, st, i+1), cs)
+			} else {
+				res.Inconclusive = "a call on a closed handle did not return, no blocked-state witness"
+			}
+			return
+		}
 		rr := fsx.Exec(ref, st, &rh, nil)
 		res.Count("calls_after_close", 1)
 		res.Seen("closed_situations", cs.Subject+"|"+cs.Kind+"|"+m)
